@@ -96,6 +96,9 @@ where
         g.specs == specs,
         g.wf_estore(),
         g.wf_rows(),
+        g.edges@.len() == 0 && g.successors@.len() == 0 && g.predecessors@.len() == 0,
+        g.successors_map@.len() == 0 && g.predecessors_map@.len() == 0,
+        g.successors_vec@.len() == 0 && g.predecessors_vec@.len() == 0,
 //@ end
 
 //@ extract fn src/graph/query.rs get_node_index props=C02,C20 ty=Graph
